@@ -6,7 +6,9 @@
 open Datatypes
 open BinNums
 open Conv
+open Wire
 module L = Stdlib.List
+module S = Stdlib.String
 
 let handlers : (string, string list -> string * string) Hashtbl.t = Hashtbl.create 64
 let register name f = Hashtbl.replace handlers name f
@@ -50,6 +52,94 @@ let () = register "depthcost" (fun args ->
 let () = register "log2" (fun args ->
   let x = n_of_string (L.nth args 0) in
   (string_of_n (Segments.log2_go x), "-"))
+
+
+(* ---- tables: C01 C02 C11 C14 ---- *)
+let show_res f = function
+  | Result.Ok a -> f a
+  | Result.Err -> "err"
+  | Result.Panic _ -> "panic"
+  | Result.Fuel -> "fuel"
+
+let ref_key_ltb (r : Records.ref_record) k = Bytes.bytes_ltb r.Records.r_name k
+let log_ltb (l : Records.log_record) k = Bytes.bytes_ltb (Records.log_key l) k
+let rec drop_while p = function [] -> [] | x :: t as l -> if p x then drop_while p t else l
+
+(* model side of a query on an opened reader *)
+let model_query rd q =
+  match S.split_on_char ':' q with
+  | ["sr"; k] -> show_res show_records (Reader.seek_ref inflate rd (bytes_of_hex k))
+  | ["sl"; k; u] -> show_res show_records (Reader.seek_log inflate rd (bytes_of_hex k) (n_of_string u))
+  | ["rf"; o] -> show_res show_records (Reader.refs_for inflate rd (bytes_of_hex o))
+  | _ -> "badquery"
+
+(* specification side: what the query must return for the given source records *)
+let spec_query (refs : Records.ref_record list) (logs : Records.log_record list) q =
+  match S.split_on_char ':' q with
+  | ["sr"; k] -> let k = bytes_of_hex k in show_refs (drop_while (fun r -> ref_key_ltb r k) refs)
+  | ["sl"; k; u] -> let key = Records.log_key_of (bytes_of_hex k) (n_of_string u) in
+    show_logs (drop_while (fun l -> log_ltb l key) logs)
+  | ["rf"; o] -> let o = bytes_of_hex o in show_refs (L.filter (fun r -> Records.points_to o r) refs)
+  | _ -> "badquery"
+
+let norm_logs exact hs (logs : Records.log_record list) : Records.log_record list option =
+  let zero = L.init hs (fun _ -> N0) in
+  let fill = function None -> Some zero | h -> h in
+  let rec go acc = function
+    | [] -> Some (L.rev acc)
+    | l :: t ->
+      (match Writer.norm_log exact l with
+       | None -> None
+       | Some l1 ->
+         let l2 = match l1.Records.l_body with
+           | None -> l1
+           | Some b -> { l1 with Records.l_body = Some { b with Records.lb_old = fill b.Records.lb_old; lb_new = fill b.Records.lb_new } } in
+         go (l2 :: acc) t) in
+  go [] logs
+
+let () = register "table" (fun args ->
+  let f = S.split_on_char '|' (L.nth args 0) in
+  let cfg = parse_cfg (L.nth f 0) in
+  let mn = n_of_string (L.nth f 1) and mx = n_of_string (L.nth f 2) in
+  let refs = parse_list parse_ref (L.nth f 3) and logs = parse_list parse_log (L.nth f 4) in
+  let qs = split_on ',' (L.nth f 5) in
+  let w = Writer.write_table deflate cfg mn mx refs logs in
+  let parts = match w with
+    | Result.Ok (empty, data) ->
+      if empty then ["empty:" ^ hex_of_bytes data]
+      else begin
+        let first = "ok:" ^ hex_of_bytes data in
+        match Reader.rd_open data with
+        | Result.Ok rd ->
+          let sr = show_res show_records (Reader.scan_refs inflate rd) in
+          let sl = show_res show_records (Reader.scan_logs inflate rd) in
+          first :: "ok" :: sr :: sl :: L.map (model_query rd) qs
+        | r -> [first; show_res (fun _ -> "ok") r]
+      end
+    | r -> [show_res (fun _ -> "") r] in
+  let model = S.concat "|" parts in
+  (* oracle on the implementation's results *)
+  let oracle =
+    if L.length args < 2 then "-" else
+    let impl = S.split_on_char '|' (L.nth args 1) in
+    match impl with
+    | w :: "ok" :: sr :: sl :: qres when S.length w > 3 && S.sub w 0 3 = "ok:" ->
+      let hs = if cfg.Writer.c_sha256 then 32 else 20 in
+      (match norm_logs cfg.Writer.c_exact_log hs logs with
+       | None -> "bad:writer-accepted-multi-line-message"
+       | Some nlogs ->
+         if sr <> show_refs refs then "bad:scan-refs"
+         else if sl <> show_logs nlogs then "bad:scan-logs"
+         else
+           let rec chk qs rs = match qs, rs with
+             | [], [] -> "ok"
+             | q :: qt, r :: rt -> if spec_query refs nlogs q = r then chk qt rt else "bad:query " ^ q
+             | _ -> "bad:query-count" in
+           chk qs qres)
+    | w :: _ when w = "panic" -> "bad:writer-panic"
+    | _ :: o :: _ when o = "panic" -> "bad:open-panic"
+    | _ -> "-" in
+  (model, oracle))
 
 let () =
   try
